@@ -132,12 +132,15 @@ PROPS = {
         'technique': 'call-site agreement lint (text argument vs recorded range) + who-may-write analysis',
     },
     'C04': {
-        'rules': [rule('X5'), rule('X6'), rule('X7'), rule('X15'), rule('G7', keep=LOOKAHEAD)],
+        'rules': [rule('X5'), rule('X6'), rule('X7'), rule('X15'), rule('G7', keep=LOOKAHEAD), rule('X14'), rule('X10', keep=['defines'])],
         'explanation': 'The definedness predicate is evaluated on one name (X5); the `ifdef and `ifndef handlers are the same '
                        'algorithm up to the negated first test (X6); nothing in a skipped region can touch the define table, the '
                        'output, raise an error or start a nested run, because the skip guard precedes every effect of the loop '
-                       '(X7); branch bodies end only at a real `elsif/`else/`endif, the look-ahead testing the word boundary (G7b).',
-        'decided': 'X5 X6 X7 X15 G7b (X15: the branch-selection statements of both handlers are interpreted over the four abstract states hit x condition: first branch kept iff its condition holds, an `elsif body skipped iff hit or its condition fails, hit updated as hit or condition, `else skipped iff hit)',
+                       '(X7); branch bodies end only at a real `elsif/`else/`endif, the look-ahead testing the word boundary (G7b). "The define '
+                       'table in force at that point": the table is written only by `define (own name), `undef (exactly the name given), '
+                       '`undefineall and by adopting — replacing, not merging — the table a nested run returns, so an `undef inside an '
+                       'included file or a macro body is in force afterwards (X14, X10).',
+        'decided': 'X5 X6 X7 X15 G7b X14 X10 (X15: the branch-selection statements of both handlers are interpreted over the four abstract states hit x condition: first branch kept iff its condition holds, an `elsif body skipped iff hit or its condition fails, hit updated as hit or condition, `else skipped iff hit)',
         'not_decided': 'token-for-token output',
         'assumptions': [],
         'level_text': 'Static sibling-agreement, guard-dominance and predicate-consistency checks over the conditional-compilation '
